@@ -47,6 +47,9 @@ class SpartanProtocol(BaseGopherProtocol):
             try:
                 # read() returns None when the socket timeout expires first
                 data = self.rfile.read(content_length) or b""
+            except TimeoutError:
+                # ... or raises, when the timeout is the socket object's own
+                data = b""
             except (OverflowError, MemoryError):
                 self.write_status(4, "Content too large")
                 return
